@@ -65,10 +65,10 @@ pub fn describe(font: &Font, tr: &Track) -> String {
         .collect();
     out.push(format!("ig={}", guides.join(",")));
     out.push(format!("lib={}", font.lib.keys().map(|k| hexs(k)).collect::<Vec<_>>().join(",")));
-    out.push(format!("g={}", tokn(!font.groups.is_empty())));
+    out.push(format!("g={}", font.groups.len()));
     out.push(format!("gv={}", tokn(!tr.gv_bad)));
-    out.push(format!("k={}", tokn(!font.kerning.is_empty())));
-    out.push(format!("fe={}", tokn(!font.features.is_empty())));
+    out.push(format!("k={}", font.kerning.len()));
+    out.push(format!("fe={}", font.features.len()));
     let mut layers = Vec::new();
     for l in font.layers.iter() {
         let mut entries = Vec::new();
